@@ -49,10 +49,13 @@ def rawMax : List Pt → Rat
   | [] => 0
   | p :: rest => listMax p.2 (rest.map (·.2))
 
-/-- avar.rs:101-106: pad with -1:-1 in front / 1:1 at the back. -/
+/-- avar.rs:96-106: `min`/`max` are computed once, then -1:-1 is inserted in front when `min != -1` and
+    1:1 pushed at the back when `max != 1`. -/
 def padded (m : List Pt) : List Pt :=
-  let m := if rawMin m != -1 then ((-1 : Rat), (-1 : Rat)) :: m else m
-  if rawMax m != 1 then m ++ [((1 : Rat), (1 : Rat))] else m
+  let lo := rawMin m
+  let hi := rawMax m
+  let m1 := if lo != -1 then ((-1 : Rat), (-1 : Rat)) :: m else m
+  if hi != 1 then m1 ++ [((1 : Rat), (1 : Rat))] else m1
 
 def defaultSegmentMap : List Pt := [(-1, -1), (0, 0), (1, 1)]
 
@@ -138,5 +141,42 @@ def strictFrom : List Pt → Bool
   | [] => true
   | [_] => true
   | p :: q :: rest => p.1 < q.1 && strictFrom (q :: rest)
+
+/-! ## Axis definitions as sources state them (used to phrase the theorems) -/
+
+/-- What a source says about one axis: the user:design examples in the order listed, which of them is
+    the default, and the user-space bounds. -/
+structure AxisDef where
+  mappings : List Pt
+  defaultIdx : Nat
+  min : Rat
+  default : Rat
+  max : Rat
+  deriving Repr, Inhabited
+
+/-- The IR axis fontc builds from it (`CoordConverter::new` may fail). -/
+def AxisDef.axis? (a : AxisDef) : Option Axis :=
+  match Conv.new a.mappings a.defaultIdx with
+  | .ok c => some ⟨a.min, a.default, a.max, c⟩
+  | .error _ => none
+
+/-- the examples sorted the way `PiecewiseLinearMap::new` sorts them -/
+def AxisDef.nodes (a : AxisDef) : List Pt := (Plm.new a.mappings).pts
+
+/-- design coordinate of the default example -/
+def AxisDef.designDefault (a : AxisDef) : Rat := ((a.mappings[a.defaultIdx]?).map (·.2)).getD 0
+/-- smallest / largest design coordinate among the examples -/
+def AxisDef.designMin (a : AxisDef) : Rat :=
+  match a.mappings.map (·.2) with | [] => 0 | d :: ds => listMin d ds
+def AxisDef.designMax (a : AxisDef) : Rat :=
+  match a.mappings.map (·.2) with | [] => 0 | d :: ds => listMax d ds
+
+/-- Well-formed axis definition: once sorted, user values strictly increase and design values do not decrease;
+    the default example carries the axis default; the axis minimum/maximum are the first/last example. -/
+structure AxisDef.WellFormed (a : AxisDef) : Prop where
+  sorted : a.nodes.Pairwise (fun p q => p.1 < q.1 ∧ p.2 ≤ q.2)
+  defaultNode : ∃ dd, a.mappings[a.defaultIdx]? = some (a.default, dd)
+  minFirst : ∃ d, a.nodes.head? = some (a.min, d)
+  maxLast : ∃ d, a.nodes.getLast? = some (a.max, d)
 
 end Fontc.Avar
